@@ -218,6 +218,8 @@ pub enum Kind {
     ReceiveSignals,
     /// The same, given up through `into_inner` instead of being dropped.
     ReceiveSignalsIntoInner,
+    /// A `ReadBuf` that already holds data, passed to another read (made with `make_reread`).
+    RereadHeld,
 }
 
 #[derive(Clone, Copy, Debug, PartialEq, Eq)]
@@ -249,7 +251,7 @@ impl Kind {
         use Kind::*;
         match self {
             ReadVec | ReadVecPrefilled | ReadVectored2 | Recv | RecvVectored | RecvFrom
-            | RecvFromVectored | LocalAddr | SockOpt | Statx | WaitId | ReadLimited | PeerAddr | ReceiveSignal => Class::Data,
+            | RecvFromVectored | LocalAddr | SockOpt | Statx | WaitId | ReadLimited | PeerAddr | ReceiveSignal | RereadHeld => Class::Data,
             WriteVec | WriteStatic | WriteString | WriteBoxed | WriteArc | WriteVectored2
             | WriteVectoredTuple | Send | SendTo | SendVectored | Connect | Bind | SetSockOpt
             | CreateDir | Rename | RemoveFile | Fsync | Truncate | Shutdown | CloseFd | Listen | SyncData | FAdvise
@@ -274,7 +276,7 @@ impl Kind {
             ReadVec | ReadVecPrefilled | ReadVectored2 | Recv | RecvVectored | RecvFrom | RecvFromVectored | ReadLimited
                 | WriteVec | WriteStatic | WriteString | WriteBoxed | WriteArc | WriteVectored2 | WriteVectoredTuple
                 | Send | SendTo | SendVectored | ReadPool | RecvPool | ReadN | WriteAll | WriteAllVectored | SendAll
-                | SpliceTo | SpliceFrom | SendToVectored | RecvN | ReadNVectored | SendAllVectored
+                | SpliceTo | SpliceFrom | SendToVectored | RecvN | ReadNVectored | SendAllVectored | RereadHeld
         )
     }
 
@@ -402,6 +404,7 @@ pub fn make(kind: Kind, env: &Env<'_>) -> Op {
         WriteAllVectored => single(fd.write_all_vectored([data(n, 2), data(n + 1, 3)]), |(): (), _| "unit".to_string()),
         SendAll => single(fd.send_all(data(n, 5)), |(): (), _| "unit".to_string()),
         CloseFd => unreachable!("CloseFd is made with make_close"),
+        RereadHeld => unreachable!("RereadHeld is made with make_reread"),
         Listen => single(fd.listen(16 + n as u32), |(): (), _| "unit".to_string()),
         PeerAddr => single(fd.peer_addr::<SocketAddr>(), |a: SocketAddr, _| format!("addr:{a}")),
         SyncData => single(fd.sync_data(), |(): (), _| "unit".to_string()),
@@ -506,6 +509,17 @@ pub fn make(kind: Kind, env: &Env<'_>) -> Op {
                 bufs: held.bufs,
             }
         }
+    })
+}
+
+/// Read again into a `ReadBuf` that already owns a pool buffer: 0 read, 1 recv, 2 recv_from, 3 read_vectored, 4 recv_vectored.
+pub fn make_reread(fd: &'static AsyncFd, buf: a10::io::ReadBuf, via: u8) -> Op {
+    talloc::track(|| match via {
+        0 => single(fd.read(buf), |b: a10::io::ReadBuf, h| buf_str(b, h)),
+        1 => single(fd.recv(buf), |b: a10::io::ReadBuf, h| buf_str(b, h)),
+        2 => single(fd.recv_from::<_, SocketAddr>(buf), |(b, _, _): (a10::io::ReadBuf, SocketAddr, i32), h| buf_str(b, h)),
+        3 => single(fd.read_vectored([buf]), |[b]: [a10::io::ReadBuf; 1], h| buf_str(b, h)),
+        _ => single(fd.recv_vectored([buf]), |([b], _): ([a10::io::ReadBuf; 1], i32), h| buf_str(b, h)),
     })
 }
 
